@@ -167,6 +167,7 @@ type runState struct {
 	https []*handlers.HTTP
 	restarts int
 	restartFn func(forced bool) bool // how a "restart" operation is carried out (nil: in-process transcription)
+	inFault  bool            // fault_test.go: the operation being applied runs while the database fails
 	exAgents map[string]bool // fault_test.go: sessions whose stored row the failed operation left behind the memory
 	exLinks  map[string]bool // ... and sessions whose stored links it left behind
 }
@@ -312,6 +313,20 @@ func (r *runState) apply(op Op) bool {
 					r.lorig[e.Name] = *r.lmod[i].HTTP
 				}
 				w.TS.DispatchEvent(r.listenerPk(packager.Type.Listener.Edit, httpInfo(LSpec{Kind: "http", Name: e.Name, HTTP: &send})))
+				// as with add and remove, the edit counts when the server's listener shows it (a server that
+				// cannot store an edit may leave the listener as it was)
+				for _, l := range w.TS.Listeners {
+					if h, ok := l.Config.(*handlers.HTTP); ok && l.Name == e.Name {
+						c := h.Config
+						shown := c.UserAgent == eff.UserAgent && strings.Join(c.Headers, ", ") == strings.Join(eff.Headers, ", ") && strings.Join(c.Uris, ", ") == strings.Join(eff.Uris, ", ") && c.Proxy.Enabled == eff.Proxy
+						if shown && eff.Proxy {
+							shown = c.Proxy.Type == eff.PType && c.Proxy.Host == eff.PHost && c.Proxy.Port == eff.PPort && c.Proxy.Username == eff.PUser && c.Proxy.Password == eff.PPass
+						}
+						if !shown && r.inFault {
+							return true
+						}
+					}
+				}
 				r.lmod[i].HTTP = &eff
 				return true
 			}
@@ -330,6 +345,11 @@ func (r *runState) apply(op Op) bool {
 		}
 		k, iv := keyFrom(r.seed(op.A))
 		if !w.Register(spec.ID, k, iv, spec.Meta.ref(spec.ID)) {
+			if r.inFault {
+				// a teamserver that cannot store the session may refuse the registration: the agent gets no
+				// acknowledgement and asks again later (the unchanged tree acknowledges: known.d/C10.jsonl)
+				return true
+			}
 			panic(fmt.Sprintf("harness: DEMON_INIT of %08x not acknowledged", spec.ID))
 		}
 		return true
